@@ -255,7 +255,7 @@ def check_c02(prog, rep, tier, cfg):
         # the flag is a captured &mut bool, written on every path at the end with is_singleline() under a Comment test
         stores = []
         for bb, i, s in cl.stmts():
-            if s["k"] == "assign" and s["dst"]["p"] and s["dst"]["p"][-1]["k"] == "deref":
+            if s["k"] == "assign" and ((s["dst"]["p"] and s["dst"]["p"][-1]["k"] == "deref") or (not s["dst"]["p"] and s["dst"]["l"] in cl.origin_alias)):
                 o = Origins(cl).of_place({"l": s["dst"]["l"], "p": []})
                 if any(x[0] == "upvar" and "must_break" in x[2] for x in o):
                     stores.append((bb, s))
@@ -293,10 +293,17 @@ def check_c02(prog, rep, tier, cfg):
         # reads of the flag control the newline push (ignored arm) and nls = 1 (normal arm)
         reads = []
         for bb, i, s in cl.stmts():
-            if s["k"] == "assign" and s["rv"]["k"] == "use" and s["rv"]["op"]["k"] in ("copy", "move") and s["rv"]["op"]["place"]["p"] and s["rv"]["op"]["place"]["p"][-1]["k"] == "deref":
+            if s["k"] == "assign" and s["rv"]["k"] == "use" and s["rv"]["op"]["k"] in ("copy", "move") and \
+                    ((s["rv"]["op"]["place"]["p"] and s["rv"]["op"]["place"]["p"][-1]["k"] == "deref") or (not s["rv"]["op"]["place"]["p"] and s["rv"]["op"]["place"]["l"] in cl.origin_alias)):
                 o = Origins(cl).of_place({"l": s["rv"]["op"]["place"]["l"], "p": []})
                 if any(x[0] == "upvar" and "must_break" in x[2] for x in o):
                     reads.append(bb)
+        # a flag held in a plain local can also be tested directly (`switch must_break`)
+        for bb in sorted(cl.reachable()):
+            tt = cl.blocks[bb]["term"]
+            if tt["k"] == "switch" and tt["discr"]["k"] in ("copy", "move") and not tt["discr"]["place"]["p"] and cl.origin_alias.get(tt["discr"]["place"]["l"], ("",))[0] == "upvar" \
+                    and "must_break" in cl.origin_alias[tt["discr"]["place"]["l"]][2]:
+                reads.append(bb)
         from panic import dominating_conditions
         arms = set()
         for bb in reads:
@@ -304,7 +311,9 @@ def check_c02(prog, rep, tier, cfg):
             for c in conds:
                 if c[0] == "call" and c[1].endswith("is_ignored"):
                     arms.add("ignored" if c[3] else "normal")
-        rep.check(arms == {"ignored", "normal"}, R, "flag-read-in-both-arms", "the safety-net flag is read in arms %s (must guard both the ignored and the normal emission)" % sorted(arms), instance={"arms": sorted(arms)})
+        # (where the flag is read is a matter of style — it may be combined with the Eof test before the arms split; what the reads must
+        #  achieve is decided by the safety-net table below)
+        rep.check(bool(reads), R, "flag-is-read", "the safety-net flag is never read in the emission step", instance={"reads": len(reads), "arms": sorted(arms)})
         # decision table of the whole emission step: on every path on which the flag may be set and the token may be something
         # other than end-of-file, a line break is emitted before the token's text (unless the kept whitespace has one already)
         ups = cl.j.get("upvars", [])
@@ -329,7 +338,16 @@ def check_c02(prog, rep, tier, cfg):
                 if cd.get(flag) == 0:
                     continue
                 ign = [v for k, v in cd.items() if k.startswith("is_ignored(")]
-                pushes = [(n.split("::")[-1], a) for n, a in calls if n.split("::")[-1] in ("push_str", "push", "for_each")]
+                import layout as _ly
+                pushes = []
+                for n, a in calls:
+                    sn = n.split("::")[-1]
+                    if sn in ("push_str", "push", "for_each"):
+                        pushes.append((sn, a))
+                    elif _ly.is_repeat_push_helper(prog, n) and len(a) == 3:
+                        # helper form of `(0..count).for_each(|_| buf.push_str(unit))`
+                        cnt = a[2][6:] if a[2].startswith("place:") else a[2]
+                        pushes.append(("for_each", ("Range(0, %s)" % (cnt if cnt.isdigit() else "place:" + cnt), "unit:" + a[1])))
                 def first_break_before_text():
                     for n, a in pushes:
                         if n == "push_str" and "get_newline_str(" in a[-1]:
@@ -349,6 +367,11 @@ def check_c02(prog, rep, tier, cfg):
                         badrows.append(("ignored-arm", sorted(map(str, cons)), pushes[:2]))
                 else:
                     zero = [v for k, v in cd.items() if re.match(r"Eq\(arg2\.1\.newlines_before,0\)", k)]
+                    if not zero:
+                        # `match newlines_before { 0 => .., n => .. }`: the counter itself is the tested value
+                        direct = [v for k, v in cd.items() if k == "arg2.1.newlines_before"]
+                        if direct:
+                            zero = [("not", 0) if direct[0] == 0 else 0]
                     if zero and zero[0] == 0:
                         # counter is known to be non-zero: the counter's own line breaks are emitted
                         if not (pushes and pushes[0][0] == "for_each" and pushes[0][1][0].endswith(".newlines_before)")):
